@@ -338,8 +338,9 @@ def run_driver(ctx, exe, cases, tag, env=None, timeout=1800, args=()):
             rc = -999
     with open(of, errors="replace") as f:
         lines = f.read().split("\n")
-    if lines and lines[-1] == "":
-        lines.pop()
+    # a driver that died in the middle of a case leaves a partial last line: drop it, so that
+    # len(lines) is the index of the case that crashed
+    lines.pop()
     err = open(ef, errors="replace").read()
     benign, other = ub_reports(err)
     if benign:
@@ -352,7 +353,7 @@ def run_driver(ctx, exe, cases, tag, env=None, timeout=1800, args=()):
         return lines, 87, "\n".join(other[:20])
     if rc == 87 and benign and not other and "AddressSanitizer" not in err and "LeakSanitizer" not in err:
         rc = 0          # UBSan overrides the exit status even for the recoverable, benign NULL+0 reports
-    return lines, rc, err[-6000:]
+    return lines, rc, (err if len(err) <= 12000 else err[:8000] + "\n[...]\n" + err[-4000:])
 
 
 def run_sharded(ctx, exe, cases, tag, shards=None, **kw):
